@@ -318,6 +318,57 @@ theorem names_ne_nil (a : RFrame) (ha : a.cols.length > 1) : a.names ≠ [] := b
   simp at this
   omega
 
+theorem colArg_one (d : Option Rat) (c : String) (idx : List Int) (n : String) (col : RCol) (ix : List Int) :
+    colArg d c (.df (reindexF { idx := idx, cols := [(n, col)] } ix Option.none)) = .ts (reindexR { idx := idx, vals := col } ix Option.none) := by
+  simp [colArg, reindexF, reindexR, lookF, srcRow, valueAtR]
+
+/-! ### aggregates on frames -/
+
+
+theorem mem_foldl_interS (c : List String) (cs : List (List String)) (t : String) :
+    t ∈ cs.foldl interS c ↔ t ∈ c ∧ ∀ j ∈ cs, t ∈ j := by
+  induction cs generalizing c with
+  | nil => simp
+  | cons x xs ih =>
+    simp only [List.foldl_cons]
+    rw [ih, mem_interS]
+    simp only [List.mem_cons, forall_eq_or_imp]
+    exact and_assoc
+
+theorem mem_foldl_unionS (c : List String) (cs : List (List String)) (t : String) :
+    t ∈ cs.foldl unionS c ↔ t ∈ c ∨ ∃ j ∈ cs, t ∈ j := by
+  induction cs generalizing c with
+  | nil => simp
+  | cons x xs ih =>
+    simp only [List.foldl_cons]
+    rw [ih, mem_unionS]
+    simp only [List.mem_cons, exists_eq_or_imp]
+    exact or_assoc
+
+/-- the joint header of the aggregates -/
+def aggCols (ch : ColHow) (f : RFrame) (fs : List RFrame) : List String := colsJoin ch f.names (fs.map (·.names))
+
+theorem colOf_built (ix : List Int) (cols : List String) (v : String → RCol) (c : String) (hc : c ∈ cols) :
+    colOf { idx := ix, cols := cols.map fun c => (c, v c) } c = some (v c) := by
+  simp only [colOf, List.find?_map]
+  cases hf : List.find? ((fun x : String × RCol => x.1 == c) ∘ fun c => (c, v c)) cols with
+  | none =>
+    rw [List.find?_eq_none] at hf
+    have := hf c hc
+    simp at this
+  | some c' =>
+    have := List.find?_some hf
+    simp at this
+    subst this
+    rfl
+
+theorem col_recol (cols : List String) (x : RFrame) (ix : List Int) (m : Option Dir) (c : String) (hc : c ∈ cols) :
+    colOf (recolumnF cols (reindexF x ix m)) c = some (ix.map (cellD Option.none x m c)) := by
+  unfold recolumnF
+  rw [colOf_built _ cols _ c hc, colOf_reindexF]
+  unfold cellD
+  cases colOf x c <;> simp [reindexF]
+
 theorem joinIndex_two (how : How) (x y : List Int) : ∃ ix, joinIndex how [x, y] = some ix := by
   cases how <;> exact ⟨_, rfl⟩
 
